@@ -20,6 +20,7 @@ Used by C03 (snapshot isolation) and C04 (persistence).  Core Lean only.
   that runs out of fuel reports `none` and writes nothing (it never does on an acyclic heap).
 -/
 import Gossamer.Lib.TrieMem
+import Gossamer.Lib.TrieCodec
 namespace Gossamer
 namespace TrieHeap
 open Trie
@@ -74,22 +75,23 @@ structure Ctx where
 
 /-! ### node encoding (`Node.Encode`) and Merkle values with their caching -/
 
-def kidsBitmap (ks : Nib → Option Nat) : Nat :=
-  ((List.finRange 16).map (fun i => if (ks i).isNone then 0 else 2 ^ i.val)).sum
+/-- a partial key as Go holds it: one byte per nibble -/
+def nibBytes (k : Nibs) : Bytes := k.map (fun i => UInt8.ofNat i.val)
 
-/-- everything of `Node.Encode` before the children: header (variant chosen by `MustBeHashed`),
-    partial key, children bitmap, storage value (hashed iff `MustBeHashed`) -/
+/-- which child slots are non-nil (`ChildrenBitmap`) -/
+def presentKids (ks : Nib → Option Nat) : List Bool := (List.finRange 16).map (fun i => (ks i).isSome)
+
+/-- everything of `Node.Encode` before the children, with the codec functions of `TrieCodec` (C07):
+    header (variant chosen by `MustBeHashed`), partial key, children bitmap, storage value (hashed
+    iff `MustBeHashed`) -/
 def encodeHead (H : Bytes → Bytes) (n : HNode) : Bytes :=
-  (if !n.isBranch then
-      (if n.mbh then header 0x20 0x1f n.pk.length else header 0x40 0x3f n.pk.length)
-    else match n.val with
-      | none => header 0x80 0x3f n.pk.length
-      | some _ => if n.mbh then header 0x10 0x0f n.pk.length else header 0xc0 0x3f n.pk.length)
-  ++ packNibs n.pk
-  ++ (if n.isBranch then leBytes 2 (kidsBitmap n.kids) else [])
-  ++ (match n.val with
-      | none => []
-      | some x => if n.mbh then H x else scaleBytes x)
+  if !n.isBranch then
+    TrieCodec.encodeHeader (TrieCodec.leafVariantOf n.mbh) n.pk.length
+      ++ TrieCodec.nibblesToKeyLE (nibBytes n.pk) ++ TrieCodec.valueEnc H n.val n.mbh
+  else
+    TrieCodec.encodeHeader (TrieCodec.branchVariantOf n.val n.mbh) n.pk.length
+      ++ TrieCodec.nibblesToKeyLE (nibBytes n.pk) ++ TrieCodec.bitmapBytes (presentKids n.kids)
+      ++ TrieCodec.valueEnc H n.val n.mbh
 
 /-- `encodeChildren…`: for every non-nil child, in index order, the SCALE bytes of its Merkle value
     (`rec` = `CalculateMerkleValue` on the child, which may write caches; `none` = the model ran
@@ -98,13 +100,13 @@ def encodeKids (rec : Heap → Nat → Heap × Option Bytes) (ks : Nib → Optio
     Heap × Option Bytes :=
   (List.finRange 16).foldl (fun (acc : Heap × Option Bytes) i =>
     match ks i, acc.2 with
-    | some c, some bs => let r := rec acc.1 c; (r.1, r.2.map (fun m => bs ++ scaleBytes m))
+    | some c, some bs => let r := rec acc.1 c; (r.1, r.2.map (fun m => bs ++ TrieCodec.scaleEncBytes m))
     | _, _ => acc) (hp, some [])
 
 theorem encodeKids_eq (rec : Heap → Nat → Heap × Option Bytes) (ks : Nib → Option Nat) (hp : Heap) :
     encodeKids rec ks hp = (List.finRange 16).foldl (fun (acc : Heap × Option Bytes) i =>
     match ks i, acc.2 with
-    | some c, some bs => let r := rec acc.1 c; (r.1, r.2.map (fun m => bs ++ scaleBytes m))
+    | some c, some bs => let r := rec acc.1 c; (r.1, r.2.map (fun m => bs ++ TrieCodec.scaleEncBytes m))
     | _, _ => acc) (hp, some []) := rfl
 
 attribute [irreducible] encodeKids
@@ -543,9 +545,6 @@ def dbGet (db : DB) (k : Bytes) : Option Bytes :=
   match db.find? (fun e => e.1 == k) with
   | some e => some e.2
   | none => none
-
-/-- a partial key as Go holds it: one byte per nibble -/
-def nibBytes (k : Nibs) : Bytes := k.map (fun i => UInt8.ofNat i.val)
 
 def wdKids (rec : Heap × DB → Option Nat → Heap × DB) (ks : Nib → Option Nat) (s : Heap × DB) :
     Heap × DB :=
